@@ -7,6 +7,7 @@
   is d = 64; "rejection from 65 container levels" is: not well-formed within d = 65.
 -/
 import Verif.Lemmas.SkipBinCor
+import Verif.Lemmas.SkipTplBytes
 namespace Verif.C08
 
 /-- Binary.Skip never accepts anything that is not a well-formed value within the recursion limit
@@ -84,5 +85,42 @@ theorem skipBin_rejects_deep (b : Bytes) (t : UInt8) (h : refLen 65 t b = none) 
 example : refLen 64 TT.LIST [11, 0,0,0,2, 0,0,0,1, 65, 0,0,0,0, 0xEE] = some 14 := by decide
 example : skipBin [11, 0,0,0,2, 0,0,0,1, 65, 0,0,0,0, 0xEE] TT.LIST = .ok 14 :=
   skipBin_complete _ _ _ (by decide)
+
+/-! ### SkipDecoderTpl over a byte slice (BytesSkipDecoder) -/
+
+/-- BytesSkipDecoder.Next never accepts anything that is not a well-formed value within 65 levels,
+    and returns exactly its bytes -/
+theorem bytesDec_sound (b : Bytes) (t : UInt8) (out : Bytes) (s' : BytesDec)
+    (h : bytesDecNext ⟨b, 0⟩ t = .ok (out, s')) :
+    ∃ n, refLen 65 t b = some n ∧ n ≤ b.length ∧ out = b.take n ∧ s' = ⟨b.drop n, 0⟩ := by
+  have h2 := bytesDecNext_exact b t
+  rw [defaultRecursionDepth_eq] at h2
+  cases hr : refTpl 64 t b with
+  | none => rw [hr] at h2; obtain ⟨e, he⟩ := h2; rw [he] at h; cases h
+  | some k =>
+    rw [hr] at h2; rw [h2] at h
+    have := Out.ok.inj h
+    have h65 := refTpl_le_refLen 64 t b k hr
+    exact ⟨k, h65, refLen_le h65, (Prod.mk.inj this).1.symm, (Prod.mk.inj this).2.symm⟩
+
+/-- … and accepts every well-formed value with nesting ≤ 64 -/
+theorem bytesDec_complete (b : Bytes) (t : UInt8) (n : Nat) (h : refLen 64 t b = some n) :
+    bytesDecNext ⟨b, 0⟩ t = .ok (b.take n, ⟨b.drop n, 0⟩) := by
+  have h2 := bytesDecNext_exact b t
+  rw [defaultRecursionDepth_eq, refLen_le_refTpl 64 t b n h] at h2
+  exact h2
+
+/-- on every input: a value or an error, no third outcome (no panic) -/
+theorem bytesDec_total (b : Bytes) (t : UInt8) :
+    (∃ r, bytesDecNext ⟨b, 0⟩ t = .ok r) ∨ (∃ e, bytesDecNext ⟨b, 0⟩ t = .err e) := by
+  have h2 := bytesDecNext_exact b t
+  cases hr : refTpl Facts.defaultRecursionDepth t b with
+  | none => rw [hr] at h2; exact Or.inr h2
+  | some k => rw [hr] at h2; exact Or.inl ⟨_, h2⟩
+
+/-- the two in-memory skippers agree on every well-formed value with nesting ≤ 64 -/
+theorem bin_bytesDec_agree (b : Bytes) (t : UInt8) (n : Nat) (h : refLen 64 t b = some n) :
+    skipBin b t = .ok n ∧ bytesDecNext ⟨b, 0⟩ t = .ok (b.take n, ⟨b.drop n, 0⟩) :=
+  ⟨skipBin_complete b t n h, bytesDec_complete b t n h⟩
 
 end Verif.C08
